@@ -42,7 +42,7 @@ func (c05) Cases(tier string) int {
 func (c05) Describe() core.Info {
 	return core.Info{
 		Level: "exploration",
-		Rule: "two workloads. (a) typed random programs (recursion, negation, comparisons, functions, let- and do-transforms with order-insensitive reducers: count/sum/min/max/avg over small integers/collect_distinct read as a set); (b) temporal programs: chains and diamonds of rules with interval-annotated heads and bodies and the four operators over base and derived temporal predicates, evaluated with a temporal store at a fixed evaluation time. Each program is evaluated once as baseline and then under: shuffled clauses, shuffled base facts (preloaded), consistent variable renaming, predicate renaming (mapped back), wrapping in 'Package pk!' via the parser (names mapped back), every store implementation, WithDeterministicOrder, and 5 plain repetitions (fresh Go maps, fresh iteration orders). Oracle: all canonical fact sets (temporal facts with their intervals) are equal. Non-trivial: >= 2 strata or a recursion candidate and >= 3 derived facts; distinct by program.",
+		Rule: "two workloads (plus, every 8th plain case, a small program over unary predicates that mention each other positively and through negation in any direction - about half are not stratifiable; when the baseline presentation is rejected by analysis every other presentation must be rejected too: sig accepted-only-in-variant). (a) typed random programs (recursion, negation, comparisons, functions, let- and do-transforms with order-insensitive reducers: count/sum/min/max/avg over small integers/collect_distinct read as a set); (b) temporal programs: chains and diamonds of rules with interval-annotated heads and bodies and the four operators over base and derived temporal predicates, evaluated with a temporal store at a fixed evaluation time. Each program is evaluated once as baseline and then under: shuffled clauses, shuffled base facts (preloaded), consistent variable renaming, predicate renaming (mapped back), wrapping in 'Package pk!' via the parser (names mapped back), every store implementation, WithDeterministicOrder, and 5 plain repetitions (fresh Go maps, fresh iteration orders). Oracle: all canonical fact sets (temporal facts with their intervals) are equal. Non-trivial: >= 2 strata or a recursion candidate and >= 3 derived facts; distinct by program.",
 		Assumptions: []string{"internal *__tmp predicates are excluded from the comparison", "the printed program text is parsed back for the package variant (print/parse round trip is C09's property)"},
 		PerCaseTimeout: 120e9,
 	}
@@ -56,7 +56,15 @@ func (c05) Gen(r *rand.Rand, tier string, i int) any {
 		c.Text = tprogText(tp, "")
 		return c
 	}
-	o := gen.ProgOpts{Negation: true, Compare: true, Functions: r.Intn(2) == 0, Lists: r.Intn(3) == 0, Let: true, Do: r.Intn(2) == 0, DoPercent: 50,
+	if i%8 == 5 {
+		// mutual dependencies through negation in any direction: about half are not stratifiable, and
+		// then every presentation has to be rejected
+		p := gen.RandNegKnotProgram(r)
+		c.Prog = &p
+		c.Text = progText(p)
+		return c
+	}
+	o := gen.ProgOpts{Negation: true, Compare: true, Functions: r.Intn(2) == 0, Lists: r.Intn(3) == 0, Let: true, Do: r.Intn(2) == 0, DoPercent: 50, Mix: r.Intn(3) == 0, DoWildcards: true,
 		Wildcards: r.Intn(2) == 0, Shuffle: 0, FnInAtoms: true, Reducers: []string{"fn:count", "fn:sum", "fn:min", "fn:max", "fn:avg", "fn:collect_distinct"}}
 	p := gen.RandProgram(r, o)
 	c.Prog = &p
@@ -164,10 +172,33 @@ type c05Variant struct {
 var evalTime = time.Unix(0, gen.EvalTimeNanos).UTC()
 
 func renameVars(c gen.ClauseV, prefix string) gen.ClauseV {
+	return renameVarsFn(c, func(n string) string { return prefix + n })
+}
+
+// renameLikeFresh renames the variables of a clause to X0, X1, ... (in a shuffled order), the names
+// the library itself generates for wildcards and rewritten clauses.
+func renameLikeFresh(c gen.ClauseV, seed int64) gen.ClauseV {
+	names := map[string]string{}
+	var order []string
+	renameVarsFn(c, func(n string) string {
+		if _, ok := names[n]; !ok {
+			names[n] = ""
+			order = append(order, n)
+		}
+		return n
+	})
+	perm := rand.New(rand.NewSource(seed)).Perm(len(order) + 2)
+	for i, n := range order {
+		names[n] = fmt.Sprintf("X%d", perm[i])
+	}
+	return renameVarsFn(c, func(n string) string { return names[n] })
+}
+
+func renameVarsFn(c gen.ClauseV, f func(string) string) gen.ClauseV {
 	var rt func(t gen.TermV) gen.TermV
 	rt = func(t gen.TermV) gen.TermV {
 		if t.K == "var" && t.Name != "_" {
-			return gen.VarT(prefix + t.Name)
+			return gen.VarT(f(t.Name))
 		}
 		if len(t.Args) > 0 {
 			n := t
@@ -203,7 +234,7 @@ func renameVars(c gen.ClauseV, prefix string) gen.ClauseV {
 		for _, s := range stmts {
 			n := gen.StmtV{Fn: rt(s.Fn)}
 			if s.Var != "" {
-				n.Var = prefix + s.Var
+				n.Var = f(s.Var)
 			}
 			ns = append(ns, n)
 		}
@@ -313,6 +344,13 @@ func c05Variants(c c05Case) (baseline func() (resultSet, error), vs []c05Variant
 			rv.Rules[i] = renameVars(rule, fmt.Sprintf("Q%d", i))
 		}
 		vs = append(vs, c05Variant{"renamed-variables", func() (resultSet, error) { return evalPlain(rv, "multiarray", true, cols, nil) }})
+		// ... to the names the library generates itself (X0, X1, ...)
+		rx := p
+		rx.Rules = make([]gen.ClauseV, len(p.Rules))
+		for i, rule := range p.Rules {
+			rx.Rules[i] = renameLikeFresh(rule, int64(i)+r.Int63n(1000))
+		}
+		vs = append(vs, c05Variant{"renamed-variables-like-fresh", func() (resultSet, error) { return evalPlain(rx, "multiarray", true, cols, nil) }})
 		// renamed predicates
 		rp := renamePreds(p, func(s string) string { return "zz_" + s })
 		colsR := setColPreds(rp)
@@ -365,6 +403,26 @@ func c05Exec(c c05Case, res *core.Result) (skip string, fail *evalFail) {
 	base, err := baseline()
 	if err != nil {
 		if strings.HasPrefix(err.Error(), "analysis") {
+			// acceptance must not depend on the presentation either
+			kind := "plain"
+			if c.TProg != nil {
+				kind = "temporal"
+			}
+			for _, v := range vs {
+				// only presentations that submit the same clauses in the same form (facts as clauses):
+				// preloaded facts, or a text with declarations, are legitimately analysed differently
+				switch variantClass(v.name) {
+				case "shuffled-clauses", "renamed-variables", "renamed-variables-like-fresh", "renamed-predicates", "repetition", "deterministic-order":
+				default:
+					continue
+				}
+				if _, verr := v.run(); verr == nil {
+					return "", &evalFail{kind + ":accepted-only-in-variant:" + variantClass(v.name), fmt.Sprintf("the baseline presentation is rejected (%v) but presentation %q is accepted and evaluated", err, v.name)}
+				}
+				if res != nil {
+					res.Ob("rejections_compared", 1)
+				}
+			}
 			return "analysis-rejected", nil
 		}
 		return "baseline-evaluation-error", nil
